@@ -123,9 +123,27 @@ class Gen:
             return rng.randint(h + 1, 3 * h + 6)
         return rng.randint(3 * h + 1, 45)
 
-    def content(self, kind, w, h):
+    def exact_line(self, n):
+        """one unbroken unique word of exactly n columns"""
+        k = self.word
+        self.word += 1
+        head = f"{chr(65 + k % 26)}{k}"
+        return (head + "".join(chr(97 + (k + j) % 26) for j in range(max(0, n - len(head)))))[: max(1, n)]
+
+    def content(self, kind, w, h, bw=1):
         rng = self.rng
         t = self.target_rows(h)
+        self.flavor = None
+        if kind == "LB" and rng.random() < 0.2:
+            # relative mode (> 3*h items) with lines whose width sits right at the view width / the width beside the
+            # bar: one row at one of the two widths, wrapped at the other
+            self.flavor = "exactwidth"
+            bar = max(1, bw)
+            widths = [x for x in (w - bar - 1, w - bar, w - bar + 1, w - 1, w, w + 1) if x >= 1]
+            pick = [rng.choice(widths)] if rng.random() < 0.6 else widths
+            n = 3 * h + rng.randint(1, 6)
+            items = [["text", [self.exact_line(rng.choice(pick))], rng.choice(["any", "space"]), "left"] for _ in range(n)]
+            return ["listbox", items, rng.choice([0, 0, n - 1, rng.randrange(n)])]
         if kind == "LB" and rng.random() < 0.3:
             # few items (row mode), the focus item has a cursor and is taller than (a later, smaller) view
             items = [self.flow_item(3) for _ in range(rng.randint(0, 2))]
@@ -235,8 +253,11 @@ class Gen:
         if kind != "LB":
             wrap["ffk"] = rng.random() < 0.15
         else:
-            wrap["walker"] = rng.choice(["focus", "simple"])
-        content = self.content(kind, w, h)
+            wrap["walker"] = rng.choice(["focus", "focus", "simple", "offset1", "offset1000", "negative", "stride10", "str", "tuple"])
+        content = self.content(kind, w, h, wrap.get("bw", 1))
         ops = [self.op(kind, content[0], w, h) for _ in range(nops)]
+        if self.flavor == "exactwidth":  # drive it to the end first
+            head = [["key", "page down"]] * rng.randint(1, 8) + [rng.choice([["key", "end"], ["setfocus", -1], ["key", "page down"]])]
+            ops = head + ops[len(head) :]
         # keep w, h arguments of later ops in step with resizes (only used for biasing values)
         return {"content": content, "wrap": wrap, "size": [w, h], "focus": rng.random() < 0.7, "ops": ops}
